@@ -1,20 +1,37 @@
 ------------------------------- MODULE RigidFit -------------------------------
 (* C16, exhaustive model.  A case is <<kind, payload>>:
 
-   "fit"    <<P, gi, ti, mask, noise, fd, md>>
+   "fit"    <<P, gi, ti, mask, noise, fd, md, ff, mf, hs>>
             P a lattice point set; the fixed structure(s) and the mobile structure(s) are
             rigid images of P:   fixed model j  = ProperSeq-rotation/translation number j of P
                                  mobile model j = GroupSeq[gi + 7(j-1)] . P + translation, plus
                                  an integer displacement `noise` of its first atom;
-            fd, md = 0 (array) or the stack depth; mask = <<>> or <<sequence of BOOLEANs>>.
+            fd, md = 0 (array) or the stack depth; mask = <<>> or <<sequence of BOOLEANs>>;
+            ff, mf = the FORM (RigidFitOps!Forms: dtype / memory layout / container) in which
+            the fixed / mobile coordinates are handed over; hs = 1: the fixed structure is
+            displaced by (1/2, 1/2, 1/2) - a rigid motion's translation is a real vector, an
+            integer grid is in general fitted onto off-grid positions.  The witness bound is
+            invariant under translations (claim), so W needs no half ticks.
             Expected: the broadcasting outcome, and for every transformation k the lattice
             witness bound W_k on the masked atoms and whether the whole fitted model must
             coincide with the fixed one.
-   "affine" <<cs, gis, ts, X, depth>>  AffineTransformation(cs, rotations, ts) applied to the
-            coordinates X (depth 0) or to `depth` translated copies of X, and its 4x4 form.
+   "affine" <<cs, gis, ts, X, depth, form, den, tform>>  AffineTransformation(cs / den,
+            rotations, ts / den) applied to the coordinates X (depth 0) or to `depth` translated
+            copies of X handed over in `form`, and its 4x4 form.  Expected images and matrices
+            are numerators over den; tform = dtype of the constructor arrays.
+   "hist"   <<cs, gis, ts, X, depth, ops, form, den, tform>>  a HISTORY on one transformation
+            object: accessor calls, edits of returned arrays, edits of the attributes
+            (RigidFitOps: histories).  Expected: after every step the attributes and, for
+            accessors, the result - a function of the current attributes only.
+   "anch"   <<op, sF, sM, P, gi, ti, outl, minA, maxit, form>>  inputs of the outlier-tolerant
+            (op = "outliers") and homolog (op = "homologs") variants: CA trace P, residue
+            names sF / sM, rigid motion, displaced residues outl = <<<<k, d>>, ...>>.
+            Expected: the anchor path (fallback / identity / Rejected / open), the
+            coordinates, whether outlier removal is switched off.  The reported anchors of the
+            execution are judged by Trace.tla (W on exactly the reported anchors).
 
    S1 claims are listed in Evaluate. *)
-EXTENDS RigidFitOps
+EXTENDS RigidFitOps, SequencesExt
 
 CONSTANT Tier
 
@@ -35,6 +52,7 @@ MobileModel(P, gi, ti, noise, j) ==
 
 EvalFit(c) ==
   LET P == c[1]  gi == c[2]  ti == c[3]  mask == c[4]  noise == c[5]  fd == c[6]  md == c[7]
+      ff == c[8]  mf == c[9]  hs == c[10]
       n  == Len(P)
       A  == MaskSet(mask, n)
       bc == Broadcast(fd, md)
@@ -60,24 +78,90 @@ EvalFit(c) ==
            \* needs all atoms in one plane)
            \A k \in 1..nT : (clean /\ ~proper(k) /\ rk = 3) => W[k][1] > 0,
            \* the witness is attained by a proper rotation
-           \A k \in 1..nT : WitnessRot(Sub(F[FixedOf(k, fd)], A), Sub(M[MobileOf(k, md)], A)) \in Proper >> >>
+           \* (= WitnessRot(..) \in Proper, with the bound W[k] already computed above)
+           \A k \in 1..nT : \E h \in Proper : ScaledDev(Sub(F[FixedOf(k, fd)], A), Sub(M[MobileOf(k, md)], A), h) = W[k][1],
+           \* the coordinates are representable in the chosen forms
+           Dom_Form(mf, M, 1) /\ Dom_Form(ff, F, 1) /\ (hs = 1 => ~IntForm(ff)),
+           \* W does not depend on where the fixed structure lies: in half ticks, fixed displaced
+           \* by (1/2, 1/2, 1/2) (every scaled deviation is multiplied by 4)
+           (hs = 1 /\ nT >= 1) =>
+              WitnessBoundOn([k \in 1..n |-> VAdd(VScale(2, F[1][k]), <<1, 1, 1>>)], [k \in 1..n |-> VScale(2, M[1][k])], A)[1] = 4 * W[1][1] >> >>
 
 AffModels(X, depth) == [j \in 1..ModelCount(depth) |-> [k \in DOMAIN X |-> VAdd(X[k], <<j - 1, 2 * (j - 1), 0>>)]]
 EvalAffine(c) ==
-  LET cs == c[1]  gis == c[2]  ts == c[3]  X == c[4]  depth == c[5]
+  LET cs == c[1]  gis == c[2]  ts == c[3]  X == c[4]  depth == c[5]  form == c[6]  den == c[7]  tform == c[8]
       Ts == [k \in DOMAIN cs |-> Xf(cs[k], GroupSeq[gis[k]], ts[k])]
       oc == ApplyOutcome(Len(cs), depth)
       mods == AffModels(X, depth)
-      res == IF oc = "ok" THEN ApplyModels(Ts, mods) ELSE <<>>
-  IN << <<oc, res, [k \in DOMAIN cs |-> Mat4Tup(AsMatrix(Ts[k]))], mods, [k \in DOMAIN cs |-> GroupSeq[gis[k]]]>>,
-        << \* the 4x4 form applied to (x, 1) is apply(x)
+      res == IF oc = "ok" THEN ApplyModels(Ts, ScaleModels(den, mods)) ELSE <<>>
+  IN << <<oc, res, [k \in DOMAIN cs |-> Mat4Tup(AsMatrixScaled(Ts[k], den))], mods, [k \in DOMAIN cs |-> GroupSeq[gis[k]]]>>,
+        << \* the 4x4 form applied to (x, 1) is apply(x)   (numerators over den)
            \A k \in DOMAIN cs : \A i \in DOMAIN X :
-              Tup4(Mat4Vec(AsMatrix(Ts[k]), X[i])) = <<ApplyXf(Ts[k], X[i])[1], ApplyXf(Ts[k], X[i])[2], ApplyXf(Ts[k], X[i])[3], 1>>,
+              LET a == ApplyXf(Ts[k], VScale(den, X[i])) IN
+              Tup4(Mat4Vec(AsMatrixScaled(Ts[k], den), X[i])) = <<a[1], a[2], a[3], den>>,
            \* apply is x |-> R x + (R c + t): distances are preserved
            \A k \in DOMAIN cs : \A i, j \in DOMAIN X :
-              Dist2(ApplyXf(Ts[k], X[i]), ApplyXf(Ts[k], X[j])) = Dist2(X[i], X[j]) >> >>
+              Dist2(ApplyXf(Ts[k], X[i]), ApplyXf(Ts[k], X[j])) = Dist2(X[i], X[j]),
+           \* integer constructor arrays cannot hold half ticks
+           tform = "i64" => den = 1 >> >>
+
+(* ------------------------------------------------------------------ histories *)
+HistRun(Ts0, ops, mods, den) ==
+  FoldLeft(LAMBDA acc, op :
+             LET Ts == HistEdit(acc.Ts, op) IN
+             [Ts |-> Ts,
+              steps |-> Append(acc.steps,
+                 [op |-> op, c |-> [j \in DOMAIN Ts |-> Ts[j].c], R |-> [j \in DOMAIN Ts |-> Ts[j].R],
+                  t |-> [j \in DOMAIN Ts |-> Ts[j].t], res |-> HistResult(Ts, op, mods, den)])],
+           [Ts |-> Ts0, steps |-> <<>>], ops).steps
+AccessorResults(steps) == LET a == SelectSeq(steps, LAMBDA s : IsAccessor(s.op)) IN [i \in DOMAIN a |-> a[i].res]
+EvalHist(c) ==
+  LET cs == c[1]  gis == c[2]  ts == c[3]  X == c[4]  depth == c[5]  ops == c[6]  form == c[7]  den == c[8]  tform == c[9]
+      Ts0 == [k \in DOMAIN cs |-> Xf(cs[k], GroupSeq[gis[k]], ts[k])]
+      mods == AffModels(X, depth)
+      steps == HistRun(Ts0, ops, mods, den)
+      noscr == SelectSeq(ops, LAMBDA o : o # "scr")
+  IN << <<steps, mods, [k \in DOMAIN cs |-> GroupSeq[gis[k]]]>>,
+        << \* at every point of the history the matrix form of the CURRENT attributes is apply
+           \A s \in DOMAIN steps : \A k \in DOMAIN cs : \A i \in DOMAIN X :
+              LET T == Xf(steps[s].c[k], steps[s].R[k], steps[s].t[k])  a == ApplyXf(T, VScale(den, X[i])) IN
+              Tup4(Mat4Vec(AsMatrixScaled(T, den), X[i])) = <<a[1], a[2], a[3], den>>,
+           \* what the caller does with returned arrays is invisible: the accessor results of the
+           \* history are those of the history without the "scr" steps
+           AccessorResults(steps) = AccessorResults(HistRun(Ts0, noscr, mods, den)),
+           \* accessors do not change the attributes
+           \A s \in DOMAIN steps : IsAccessor(steps[s].op) =>
+              LET prev == IF s = 1 THEN [c |-> cs, R |-> [k \in DOMAIN cs |-> GroupSeq[gis[k]]], t |-> ts] ELSE steps[s - 1] IN
+              steps[s].c = prev.c /\ steps[s].R = prev.R /\ steps[s].t = prev.t,
+           ApplyOutcome(Len(cs), depth) = "ok" /\ (tform = "i64" => den = 1) >> >>
+
+(* ------------------------------------------------------------------ anchors *)
+Displace(M, outl) ==
+  [k \in DOMAIN M |-> LET hit == SelectSeq(outl, LAMBDA o : o[1] = k) IN IF hit = <<>> THEN M[k] ELSE VAdd(M[k], hit[1][2])]
+EvalAnch(c) ==
+  LET op == c[1]  sF == c[2]  sM == c[3]  P == c[4]  gi == c[5]  ti == c[6]  outl == c[7]  minA == c[8]  maxit == c[9]  form == c[10]
+      nF == IF op = "homologs" THEN Len(sF) ELSE Len(P)
+      nM == IF op = "homologs" THEN Len(sM) ELSE Len(P)
+      F  == SubSeq(P, 1, nF)
+      M0 == RigidSeq(GroupSeq[gi], TransSeq[(ti % 5) + 1], SubSeq(P, 1, nM))
+      M  == Displace(M0, outl)
+      moved == {outl[i][1] : i \in DOMAIN outl}
+      path == IF op = "homologs" THEN HomologPath(sF, sM, minA) ELSE "outliers"
+      byPos == op = "outliers" \/ PairedByPosition(path)
+      proper == Det(GroupSeq[gi]) = 1
+  IN << <<path, F, M, Cardinality(PosPairs(sF, sM)), maxit = 1, SeqOfSet({k - 1 : k \in moved})>>,
+        << \A i \in DOMAIN outl : outl[i][1] \in 1..nM,
+           nF <= Len(P) /\ nM <= Len(P) /\ minA >= 1,
+           byPos => nF = nM,
+           Dom_Form(form, <<F, M>>, 1) /\ (op = "homologs" => form = "atoms"),
+           \* dropping exactly the displaced atoms leaves a rigid copy: that anchor selection admits an
+           \* exact fit; keeping a displaced atom does not (when at least 3 further atoms pin the motion)
+           (byPos /\ proper /\ (1..nM) \ moved # {}) => WitnessBoundOn(F, M, (1..nM) \ moved)[1] = 0,
+           (byPos /\ proper /\ moved # {} /\ Rank(Sub(F, (1..nM) \ moved)) = 3 /\ \A i \in DOMAIN outl : outl[i][2] # Zero3)
+               => WitnessBoundOn(F, M, 1..nM)[1] > 0 >> >>
 
 Evaluate(c) == CASE c[1] = "fit" -> EvalFit(c[2]) [] c[1] = "affine" -> EvalAffine(c[2])
+                 [] c[1] = "hist" -> EvalHist(c[2]) [] c[1] = "anch" -> EvalAnch(c[2])
 
 (* ------------------------------------------------------------------ bounded families *)
 PointSets == <<
@@ -98,22 +182,90 @@ MasksFor(n) ==
   {<<>>} \cup (IF n >= 2 THEN {<<[k \in 1..n |-> k # n]>>, <<[k \in 1..n |-> k <= 2]>>} ELSE {})
       \cup (IF n >= 4 THEN {<<[k \in 1..n |-> k # 2]>>, <<[k \in 1..n |-> k % 2 = 1]>>} ELSE {})
 Depths == <<<<0, 0>>, <<0, 2>>, <<1, 0>>, <<2, 2>>, <<1, 3>>, <<3, 3>>, <<2, 0>>, <<2, 1>>, <<2, 3>>, <<0, 1>>, <<1, 1>>>>
+FormNo(f) == CHOOSE i \in DOMAIN Forms : Forms[i] = f
+NF == Len(Forms)
+MaskNo(mask) == IF mask = <<>> THEN 0 ELSE Cardinality({k \in DOMAIN mask[1] : mask[1][k]})
+NoiseNo(nz) == Abs(nz[1]) + 2 * Abs(nz[2]) + 3 * Abs(nz[3])
+\* the forms and the half shift cycle with the other inputs (coverage of the combinations is
+\* measured by the driver): mobile form, fixed form, half shift (never with an integer fixed form)
+MobForm(gi, p, mask, nz) == Forms[((gi + 5 * p + 3 * MaskNo(mask) + 7 * NoiseNo(nz)) % NF) + 1]
+FixForm(gi, p, mask, nz) == Forms[((2 * gi + p + MaskNo(mask) + NoiseNo(nz)) % NF) + 1]
+HalfShift(gi, p, mask, nz) == IF IntForm(FixForm(gi, p, mask, nz)) THEN 0 ELSE (gi + p + MaskNo(mask)) % 2
 FitCases(PS, GI, NZ) ==
-  {<<"fit", <<PointSets[p], gi, (gi + p) % 5, mask, noise, Depths[((gi + 3 * p) % Len(Depths)) + 1][1], Depths[((gi + 3 * p) % Len(Depths)) + 1][2]>>>> :
+  {<<"fit", <<PointSets[p], gi, (gi + p) % 5, mask, noise, Depths[((gi + 3 * p) % Len(Depths)) + 1][1], Depths[((gi + 3 * p) % Len(Depths)) + 1][2],
+              FixForm(gi, p, mask, noise), MobForm(gi, p, mask, noise), HalfShift(gi, p, mask, noise)>>>> :
       p \in PS, gi \in GI, noise \in NZ, mask \in UNION {MasksFor(Len(PointSets[q])) : q \in PS}}
 FitOK(c) == c[2][4] = <<>> \/ Len(c[2][4][1]) = Len(c[2][1])
-AffineCases(GI) ==
-  {<<"affine", <<cs, gis, ts, X, depth>>>> :
-      cs \in {<<<<0, 0, 0>>>>, <<<<1, -2, 3>>>>, <<<<1, -2, 3>>, <<0, 5, 0>>>>, <<<<-1, 0, 0>>, <<0, 0, 2>>, <<4, 4, 4>>>>},
-      gis \in {<<g>> : g \in GI} \cup {<<g, ((g + 10) % 48) + 1>> : g \in GI} \cup {<<g, ((g + 10) % 48) + 1, ((g + 29) % 48) + 1>> : g \in GI},
-      ts \in {<<<<0, 0, 0>>>>, <<<<2, 0, -1>>>>, <<<<2, 0, -1>>, <<7, 7, 7>>>>, <<<<0, 1, 0>>, <<-3, 0, 0>>, <<0, 0, 9>>>>},
+
+AffCs == {<<<<0, 0, 0>>>>, <<<<1, -2, 3>>>>, <<<<1, -2, 3>>, <<0, 5, 0>>>>, <<<<-1, 0, 0>>, <<0, 0, 2>>, <<4, 4, 4>>>>}
+AffTs == {<<<<0, 0, 0>>>>, <<<<2, 0, -1>>>>, <<<<2, 0, -1>>, <<7, 7, 7>>>>, <<<<0, 1, 0>>, <<-3, 0, 0>>, <<0, 0, 9>>>>}
+AffGis(GI) == {<<g>> : g \in GI} \cup {<<g, ((g + 10) % 48) + 1>> : g \in GI} \cup {<<g, ((g + 10) % 48) + 1, ((g + 29) % 48) + 1>> : g \in GI}
+\* den and the dtype of the constructor arrays cycle; every (form, den) pair occurs
+AffKey(cs, gis, depth, form) == gis[1] + depth + Len(cs) + FormNo(form)
+DenOf(k) == (k % 2) + 1
+TFormOf(k) == IF DenOf(k) = 2 THEN <<"f32", "f64">>[((k \div 2) % 2) + 1] ELSE <<"f32", "f64", "i64">>[((k \div 2) % 3) + 1]
+AffineCases(GI, FS) ==
+  {<<"affine", <<cs, gis, ts, X, depth, form, DenOf(AffKey(cs, gis, depth, form)), TFormOf(AffKey(cs, gis, depth, form))>>>> :
+      cs \in AffCs, gis \in AffGis(GI), ts \in AffTs,
       X \in {<<<<1, 2, 3>>>>, <<<<0, 0, 0>>, <<1, 0, 0>>, <<-2, 5, 1>>>>},
-      depth \in 0..3}
+      depth \in 0..3, form \in FS}
 AffOK(c) == Len(c[2][1]) = Len(c[2][2]) /\ Len(c[2][2]) = Len(c[2][3])
 
-CasesTiny(z) == {c \in FitCases({3, 10}, {1, 2, 9}, {Zero3}) : FitOK(c)} \cup {c \in AffineCases({1, 20}) : AffOK(c)}
-CasesQuick(z) == {c \in FitCases(DOMAIN PointSets, 1..48, {Zero3, <<1, 0, 0>>}) : FitOK(c)} \cup {c \in AffineCases({1, 4, 11, 20, 31, 46}) : AffOK(c)}
-CasesThorough(z) == {c \in FitCases(DOMAIN PointSets, 1..48, {Zero3, <<1, 0, 0>>, <<0, -2, 1>>, <<3, 3, 3>>}) : FitOK(c)} \cup {c \in AffineCases(1..48) : AffOK(c)}
+\* histories: all operation sequences up to length L that end with an accessor, on 1 or 2
+\* transformations, arrays and stacks
+HistStarts == <<
+  <<<<<<1, -2, 3>>>>, <<1>>, <<<<2, 0, -1>>>>, 0>>,                               \* 1 transformation, array
+  <<<<<<0, 0, 0>>>>, <<1>>, <<<<0, 0, 0>>>>, 1>>,                                 \* identity, stack of 1
+  <<<<<<1, -2, 3>>, <<0, 5, 0>>>>, <<1, 1>>, <<<<2, 0, -1>>, <<7, 7, 7>>>>, 2>> >>   \* 2 transformations, stack of 2
+OpSeqs(L) == UNION {{s \in [1..l -> HistOpSet] : IsAccessor(s[l])} : l \in 1..L}
+HistKey(st, g, ops) == st + g + Len(ops) + Cardinality({i \in DOMAIN ops : ops[i] = "scr"}) + 2 * Cardinality({i \in DOMAIN ops : ops[i] = "setR"})
+HistCases(GI, L) ==
+  {<<"hist", <<HistStarts[st][1], [k \in DOMAIN HistStarts[st][2] |-> ((g + 10 * (k - 1)) % 48) + 1], HistStarts[st][3],
+               <<<<0, 0, 0>>, <<1, 0, 0>>, <<-2, 5, 1>>>>, HistStarts[st][4], ops,
+               Forms[((HistKey(st, g, ops) + 4 * st) % NF) + 1], DenOf(HistKey(st, g, ops)), TFormOf(HistKey(st, g, ops))>>>> :
+      st \in DOMAIN HistStarts, g \in GI, ops \in OpSeqs(L)}
+
+\* anchors: CA traces, residue patterns, motions, every single displaced residue and one pair
+Chains == <<PointSets[12],
+            <<<<0, 0, 0>>, <<1, 0, 0>>, <<2, 1, 0>>, <<2, 2, 1>>, <<1, 2, 2>>, <<0, 1, 2>>, <<-1, 0, 3>>, <<-1, -1, 5>>>>,
+            PointSets[11]>>
+Mixed(n) == [k \in 1..n |-> <<"ALA", "GLY", "SER", "SER", "GLY">>[(k % 5) + 1]]
+All(r, n) == [k \in 1..n |-> r]
+\* <<name, fixed residues, mobile residues>> for a chain of n residues
+SeqPatterns(n) == {
+  <<All("ALA", n), All("GLY", n)>>,                                        \* no positive pair: fallback
+  <<[k \in 1..n |-> IF k % 2 = 0 THEN "SER" ELSE "ALA"], All("GLY", n)>>,  \* fallback
+  <<All("GLY", n), [k \in 1..n |-> IF k % 3 = 0 THEN "SER" ELSE "ALA"]>>,  \* fallback
+  <<Mixed(n), Mixed(n)>>,                                                  \* identity
+  <<All("SER", n), All("SER", n)>>,                                        \* identity
+  <<All("ALA", n), All("SER", n)>>,                                        \* positive pairs: open
+  <<All("ALA", n), All("GLY", n - 1)>>,                                    \* fallback refused
+  <<Mixed(n), Mixed(n - 1)>> }                                             \* open
+Disp1 == <<6, -5, 4>>
+Disp2 == <<-4, 7, 5>>
+Outls(m) == {<<>>} \cup {<<<<k, Disp1>>>> : k \in 1..m} \cup {<<<<1, Disp1>>, <<m, Disp2>>>>, <<<<2, Disp2>>, <<3, Disp1>>>>}
+MaxItOf(k) == IF k % 4 = 0 THEN 1 ELSE 10
+OutlNo(o) == IF o = <<>> THEN 0 ELSE o[1][1] + Len(o)
+AnchCases(CH, GI) ==
+  {<<"anch", <<"homologs", sp[1], sp[2], Chains[ch], gi, gi + ch, o, minA, MaxItOf(gi + ch + OutlNo(o) + minA), "atoms">>>> :
+      ch \in CH, gi \in GI, minA \in {1, 3}, sp \in UNION {SeqPatterns(Len(Chains[q])) : q \in CH}, o \in UNION {Outls(Len(Chains[q])) : q \in CH}}
+  \cup
+  {<<"anch", <<"outliers", <<>>, <<>>, Chains[ch], gi, gi + ch, o, minA, MaxItOf(gi + ch + OutlNo(o) + minA),
+               Forms[((gi + ch + OutlNo(o) + 3 * minA) % NF) + 1]>>>> :
+      ch \in CH, gi \in GI, minA \in {1, 3, 5}, o \in UNION {Outls(Len(Chains[q])) : q \in CH}}
+AnchOK(c) ==
+  LET p == c[2]  n == Len(p[4])  m == IF p[1] = "homologs" THEN Len(p[3]) ELSE n IN
+  /\ p[1] = "homologs" => Len(p[2]) = n
+  /\ p[7] \in Outls(m)
+
+CasesTiny(z) == {c \in FitCases({3, 10}, {1, 2, 9}, {Zero3}) : FitOK(c)} \cup {c \in AffineCases({1, 20}, {"f32", "i64"}) : AffOK(c)}
+                   \cup HistCases({5}, 3) \cup {c \in AnchCases({3}, {2}) : AnchOK(c)}
+CasesQuick(z) == {c \in FitCases(DOMAIN PointSets, 1..48, {Zero3, <<1, 0, 0>>}) : FitOK(c)}
+                   \cup {c \in AffineCases({1, 4, 11, 20, 31, 46}, ToSet(Forms)) : AffOK(c)}
+                   \cup HistCases({5, 26}, 4) \cup {c \in AnchCases({1, 2}, {2, 30}) : AnchOK(c)}
+CasesThorough(z) == {c \in FitCases(DOMAIN PointSets, 1..48, {Zero3, <<1, 0, 0>>, <<0, -2, 1>>, <<3, 3, 3>>}) : FitOK(c)}
+                   \cup {c \in AffineCases(1..48, ToSet(Forms)) : AffOK(c)}
+                   \cup HistCases({5, 26, 40}, 5) \cup {c \in AnchCases({1, 2, 3}, {2, 9, 30, 41}) : AnchOK(c)}
 Cases == CASE Tier = "tiny" -> CasesTiny(0) [] Tier = "quick" -> CasesQuick(0) [] Tier = "thorough" -> CasesThorough(0)
 
 (* ------------------------------------------------------------------ the model *)
@@ -128,5 +280,9 @@ InvClaims == Done => \A i \in DOMAIN vout[2] : vout[2][i]
 \* pins
 ASSUME \A p \in DOMAIN PointSets : IndexMirrorSymmetric(PointSets[p]) <=> Rank(PointSets[p]) <= 2
 ASSUME Rank(PointSets[1]) = 0 /\ Rank(PointSets[2]) = 0 /\ Rank(PointSets[4]) = 1 /\ Rank(PointSets[8]) = 2 /\ Rank(PointSets[10]) = 3
+ASSUME HomologPath(<<"ALA", "ALA", "SER">>, <<"GLY", "GLY", "GLY">>, 3) = "fallback" /\ HomologPath(<<"ALA", "ALA", "SER">>, <<"GLY", "GLY">>, 1) = "Rejected"
+       /\ HomologPath(<<"ALA", "GLY", "SER">>, <<"ALA", "GLY", "SER">>, 3) = "identity" /\ HomologPath(<<"ALA", "ALA", "ALA">>, <<"SER", "GLY", "GLY">>, 1) = "open"
+ASSUME Det(HistQ) = 1 /\ HistQ \in Proper
+ASSUME \A f \in ToSet(Forms) : Forms[FormNo(f)] = f
 ASSUME Broadcast(0, 0) = <<"ok", 1, 0>> /\ Broadcast(0, 3) = <<"ok", 3, 3>> /\ Broadcast(2, 0)[1] = "Unspecified" /\ Broadcast(2, 3)[1] = "Rejected" /\ Broadcast(1, 3) = <<"ok", 3, 3>>
 =============================================================================
